@@ -74,6 +74,10 @@ def cases(tier, seed):
     # F: the four forced / internal combinations of noise and background on a noise-free image with a constant pedestal
     for ped, opts, ph, docov in itertools.product([2.5, -3.0, 0.0], ["rms+bkg", "rms"], [(0.0, 0.0), (0.3, -0.4)], [False, True]):
         yield "F", dict(pedestal=ped, opts=opts, phase=list(ph), docov=docov)
+        if docov is False and ph == (0.0, 0.0):
+            # the same image stored with a scaling keyword (float pixels in other units, 16-bit integers)
+            yield "F", dict(pedestal=ped, opts=opts, phase=list(ph), docov=docov, store="bscale_float")
+            yield "F", dict(pedestal=ped, opts=opts, phase=list(ph), docov=docov, store="bscale_int16")
     # G: elongated sources lying along (or within a few degrees of) a pixel axis at LOW signal-to-noise (small islands whose
     # bounding box is much longer than wide), noise-free
     for ratio, pa, snr, ph in itertools.product([2.0, 2.5, 3.0], [0.0, 4.0, 86.0, 90.0, 93.0, 177.0], [12.0, 20.0, 30.0, 45.0], [(0.0, 0.0), (0.35, -0.2)]):
@@ -257,8 +261,20 @@ def ev_F(case, ctx):
     rms = 0.01
     ped = case["pedestal"] * rms
     f = os.path.join(d, "c01f.fits")
-    scenes.write_image(f, hdr, skygauss.render(hdr, shape, [src]) + ped)
+    phys = skygauss.render(hdr, shape, [src]) + ped
+    store = case.get("store", "plain")
+    if store == "plain":
+        scenes.write_image(f, hdr, phys)
+    else:
+        from astropy.io import fits as _fits
+        scale = 2.5 if store == "bscale_float" else 1.0 / 8192
+        raw = (phys / scale).astype(np.float32) if store == "bscale_float" else np.round(phys / scale).astype(np.int16)
+        _fits.PrimaryHDU(data=raw, header=wz.to_fits_header(hdr)).writeto(f, overwrite=True)
+        with _fits.open(f, mode="update", do_not_scale_image_data=True) as hl:
+            hl[0].header["BSCALE"] = scale
     sig = "F:pedestal=%g sigma,forced=%s,phase=%r,docov=%s" % (case["pedestal"], case["opts"], case["phase"], case["docov"])
+    if store != "plain":
+        sig += ",stored=" + store
     ctx.count("F")
     ctx.nontrivial(sig)
     kw = dict(docov=case["docov"])
@@ -272,7 +288,8 @@ def ev_F(case, ctx):
         ctx.violation("finder raised %r (%s)" % (e, sig), "raise|" + sig)
         return
     compare_noisefree(out, src, hdr, beam, ctx, sig, sig)
-    if len(out) == 1 and not abs(out[0].background - ped) <= 1e-3 * rms + 1e-6 * abs(ped):
+    quant = (1.0 / 8192) if case.get("store") == "bscale_int16" else 0.0       # 16-bit storage quantises the pedestal itself
+    if len(out) == 1 and not abs(out[0].background - ped) <= 1e-3 * rms + 1e-6 * abs(ped) + quant:
         ctx.violation("background column %.6g, the image's pedestal is %.6g (%s)" % (out[0].background, ped, sig), "background|" + sig)
 
 
